@@ -126,6 +126,33 @@ def range_function(module: str, qualname: str, locate, label: str) -> Step:
     return _make(module, qualname, fn, blk[i:j], [], label, blk[i])
 
 
+def nested_function(module: str, qualname: str, nested_name: str) -> Step:
+    """a function defined inside `qualname`, lifted out: its free variables (bound in the enclosing function) become leading
+    parameters. The body is copied verbatim (returns allowed: it is a function)."""
+    fn = extract.find_def(module, qualname)
+    inner = [n for n in ast.walk(fn) if isinstance(n, ast.FunctionDef) and n is not fn and n.name == nested_name]
+    if len(inner) != 1:
+        raise ExtractionError(f"{qualname}: {len(inner)} nested functions named {nested_name}")
+    g = inner[0]
+    own = {a.arg for a in g.args.args + g.args.kwonlyargs} | _names(ast.Module(body=g.body, type_ignores=[]), ast.Store)
+    reads = _names(ast.Module(body=g.body, type_ignores=[]), ast.Load)
+    outer_bound = {a.arg for a in fn.args.args} | {n.id for n in ast.walk(fn) if isinstance(n, ast.Name) and isinstance(n.ctx, ast.Store)}
+    free = sorted(x for x in reads if x not in own and x in outer_bound)
+    if any(isinstance(n, (ast.Nonlocal, ast.Global)) for n in ast.walk(g)):
+        raise ExtractionError(f"{nested_name}: nonlocal/global")
+    fdef = ast.FunctionDef(
+        name=f"{qualname.replace('.', '_')}__{nested_name}",
+        args=ast.arguments(posonlyargs=[], args=[ast.arg(arg=x) for x in free] + [ast.arg(arg=a.arg) for a in g.args.args], kwonlyargs=[], kw_defaults=[], defaults=[]),
+        body=copy.deepcopy(g.body),
+        decorator_list=[],
+        returns=None,
+        type_params=[],
+    )
+    ast.copy_location(fdef, g)
+    ast.fix_missing_locations(fdef)
+    return Step(fdef, free + [a.arg for a in g.args.args], [], [], g, fn)
+
+
 def _make(module: str, qualname: str, fn: ast.FunctionDef, stmts: list[ast.stmt], targets: list[str], label: str, anchor: ast.AST) -> Step:
     for st in stmts:
         for n in ast.walk(st):
